@@ -161,7 +161,7 @@ def check_delete_loops(rep, fm):
             Li = [L for L in e.loops if parts[0] == "each" and L.idx == parts[2].args[1]]
             isf = [x for x in walk(g) if isinstance(x, Op) and x.op == "call:os.path.isfile"]
             rep.check(bool(Li) and any(fm.norm(x.args[0]) == target for x in isf) and not Li[0].stops and
-                      fm.norm(Li[0].iter) == parts[2].args[0], "C11.R3.scope",
+                      iterates_all(fm, Li[0], parts[2].args[0]), "C11.R3.scope",
                       "--delete-all removes every regular file (os.path.isfile guard on the same path, no early exit)", where, e.node,
                       "--delete-all does not remove exactly the regular files of the directory", node=e.node)
         elif parts[0] == "each":
@@ -196,6 +196,19 @@ def check_delete_loops(rep, fm):
                 is_const(a, str) and "not found" in a.v for a in ev.data[0])]
             rep.check(bool(nf), "C11.R3.scope", "--delete reports 'PEL not found' when nothing matched", where, "print('PEL not found')",
                       "--delete no longer reports 'PEL not found'")
+
+
+def iterates_all(fm, L, files):
+    """the loop visits every element of `files` once: it iterates the list itself, or a sequence built with exactly one
+    element per file (a generator expression / comprehension over it without a filter)"""
+    it = fm.norm(L.iter)
+    if it == files:
+        return True
+    items = pelx.list_items(fm.I, it) if isinstance(it, Ref) else None
+    if items and len(items) == 1 and items[0][0] == "rep" and fm.norm(items[0][3]) == TRUE:
+        L0 = items[0][1]
+        return fm.norm(L0.iter) == files and not L0.stops
+    return False
 
 
 def conj_terms(c):
